@@ -39,7 +39,8 @@ def parse_text(out):
 
 
 def last_json(stdout):
-    txt = stdout.decode("utf-8", "replace")
+    # the scan's status goroutine may still be printing its clear-screen sequence when the result is written
+    txt = stdout.decode("utf-8", "replace").replace("\x1b[H\x1b[J", "")
     for line in reversed(txt.split("\n")):
         line = line.strip()
         if line.startswith("{"):
